@@ -144,6 +144,12 @@ def run(chk):
             good.append(("binding", p))
         else:
             ill.append(("binding", dict(p, why="list / pointer / scalar mix judged ill typed by Typing.tla")))
+    # declarations with a type annotation and scopes of names (GenDecl.tla): both verdicts from Typing.tla
+    for p in P.tlc_programs(chk, "GenDecl", 100, chk.seed):
+        if p["ok"]:
+            good.append(("binding", p))
+        else:
+            ill.append(("binding", dict(p, why="typed declaration / scope judged ill typed by Typing.tla (%s)" % p["fam"])))
     reqs, meta = [], {}
     for n, (kind, p) in enumerate(good):
         src = P.binding_doc([p])[0] if kind == "binding" else P.handler_doc([p])
